@@ -21,63 +21,50 @@ func newFuncDecoder(typ *runtime.Type, structName, fieldName string) *funcDecode
 }
 
 func (d *funcDecoder) DecodeStream(s *Stream, depth int64, p unsafe.Pointer) error {
-	s.skipWhiteSpace()
-	start := s.cursor
+	// the kind of the value is decided by its first character, read before the
+	// value is skipped: afterwards the cursor is behind the value and the
+	// buffer may have been replaced by a refill
+	first := s.skipWhiteSpace()
 	if err := s.skipValue(depth); err != nil {
 		return err
 	}
-	src := s.buf[start:s.cursor]
-	if len(src) > 0 {
-		switch src[0] {
-		case '"':
-			return &errors.UnmarshalTypeError{
-				Value:  "string",
-				Type:   runtime.RType2Type(d.typ),
-				Offset: s.totalOffset(),
-			}
-		case '[':
-			return &errors.UnmarshalTypeError{
-				Value:  "array",
-				Type:   runtime.RType2Type(d.typ),
-				Offset: s.totalOffset(),
-			}
-		case '{':
-			return &errors.UnmarshalTypeError{
-				Value:  "object",
-				Type:   runtime.RType2Type(d.typ),
-				Offset: s.totalOffset(),
-			}
-		case '-', '0', '1', '2', '3', '4', '5', '6', '7', '8', '9':
-			return &errors.UnmarshalTypeError{
-				Value:  "number",
-				Type:   runtime.RType2Type(d.typ),
-				Offset: s.totalOffset(),
-			}
-		case 'n':
-			if err := nullBytes(s); err != nil {
-				return err
-			}
-			*(*unsafe.Pointer)(p) = nil
-			return nil
-		case 't':
-			if err := trueBytes(s); err == nil {
-				return &errors.UnmarshalTypeError{
-					Value:  "boolean",
-					Type:   runtime.RType2Type(d.typ),
-					Offset: s.totalOffset(),
-				}
-			}
-		case 'f':
-			if err := falseBytes(s); err == nil {
-				return &errors.UnmarshalTypeError{
-					Value:  "boolean",
-					Type:   runtime.RType2Type(d.typ),
-					Offset: s.totalOffset(),
-				}
-			}
+	switch first {
+	case '"':
+		return &errors.UnmarshalTypeError{
+			Value:  "string",
+			Type:   runtime.RType2Type(d.typ),
+			Offset: s.totalOffset(),
+		}
+	case '[':
+		return &errors.UnmarshalTypeError{
+			Value:  "array",
+			Type:   runtime.RType2Type(d.typ),
+			Offset: s.totalOffset(),
+		}
+	case '{':
+		return &errors.UnmarshalTypeError{
+			Value:  "object",
+			Type:   runtime.RType2Type(d.typ),
+			Offset: s.totalOffset(),
+		}
+	case '-', '0', '1', '2', '3', '4', '5', '6', '7', '8', '9':
+		return &errors.UnmarshalTypeError{
+			Value:  "number",
+			Type:   runtime.RType2Type(d.typ),
+			Offset: s.totalOffset(),
+		}
+	case 'n':
+		// skipValue has checked the spelling of the literal
+		*(*unsafe.Pointer)(p) = nil
+		return nil
+	case 't', 'f':
+		return &errors.UnmarshalTypeError{
+			Value:  "boolean",
+			Type:   runtime.RType2Type(d.typ),
+			Offset: s.totalOffset(),
 		}
 	}
-	return errors.ErrInvalidBeginningOfValue(s.buf[s.cursor], s.totalOffset())
+	return errors.ErrInvalidBeginningOfValue(first, s.totalOffset())
 }
 
 func (d *funcDecoder) Decode(ctx *RuntimeContext, cursor, depth int64, p unsafe.Pointer) (int64, error) {
